@@ -7,6 +7,8 @@ import BctVerif.Lemmas.DistBinTerm
 import BctVerif.Lemmas.DistReachdist
 import BctVerif.Lemmas.DistBfsModel
 import BctVerif.Lemmas.DistEcc
+import BctVerif.Lemmas.DistLog
+import BctVerif.Model.LocalEff
 
 /-!
 # C03 — shortest-path distance matrices equal true minimum path lengths
@@ -80,6 +82,59 @@ theorem floyd_hops (tr : Transform) (A : AMat Rat n) (hA : NonNeg A) (i j : Fin 
 theorem floyd_hops_unreachable (tr : Transform) (A : AMat Rat n) (hA : NonNeg A) (i j : Fin n)
     (hinf : lenFun (floyd (lenMat tr A)).D i j = ⊤) : (floyd (lenMat tr A)).hops.get i j = 0 :=
   (floyd_spec (lenMat tr A) (lenMat_nonneg tr A hA)).zero i j hinf
+
+/-! ## the `'log'` and `'inv'` transforms as such (over ℝ)
+
+The statements above are about the executable model, whose lengths are exact rationals. The `'log'` transform produces
+`-ln w`, irrational for rational `w ≠ 1`, so it has no executable exact model; but the algorithm itself (`initFS`, one
+`stageP` per node, `finalFS`: `floydFun`) is the same function-level program over any ordered field
+(`Lemmas/DistGenericK.lean`), it is what the executable model computes at `K = ℚ` (`floydFun_rat`), and over `K = ℝ` it can
+be fed the real-valued length matrix.  The floating-point evaluation of `-np.log` and of the sums is outside these
+theorems (the open finding C12-retrieve-float-rounding shows that it matters on ties). -/
+
+/-- at `K = ℚ` the field-generic run is the executable model -/
+theorem floydFun_is_model (A : AMat Ext n) : floydFun (K := ℚ) (lenFun A) = toK (toFS (floyd A)) := floydFun_rat A
+
+/-- **`distance_wei_floyd_log_spec`**: for real weights in `[0, 1]` (0 = no connection), the run of `distance_wei_floyd` on the
+lengths `-ln w` returns the matrix of minimum total `-ln` length over all walks (`∞` iff unreachable), zero diagonal, `hops`
+the edge count of such a walk and the `Pmat` recursion — `FloydSpec` — exactly -/
+theorem distance_wei_floyd_log_spec (W : Fin n → Fin n → ℝ) (hW : ∀ i j, 0 ≤ W i j ∧ W i j ≤ 1) :
+    DistK.FloydSpec (logLen W) (floydFun (logLen W)) :=
+  floydFun_spec (logLen W) (logLen_nonneg W hW)
+
+/-- the same for the `'inv'` transform with real non-negative weights -/
+theorem distance_wei_floyd_inv_spec_real (W : Fin n → Fin n → ℝ) (hW : ∀ i j, 0 ≤ W i j) :
+    DistK.FloydSpec (invLen W) (floydFun (invLen W)) :=
+  floydFun_spec (invLen W) (invLen_nonneg W hW)
+
+/-- the `'log'` length is an order-reversing re-encoding of the weight: strictly decreasing on `(0,1]`, weight 1 ↦ length 0,
+and the length of a walk is `-ln` of the product of its weights -/
+theorem log_transform_order {a b : ℝ} (ha : 0 < a) (hab : a < b) : -Real.log b < -Real.log a ∧ -Real.log 1 = 0 :=
+  ⟨neg_log_strictAnti ha hab, neg_log_one⟩
+
+/-- **`log_most_probable_path`**: with `'log'`, a finite `SPL i j = d` means that `exp(-d)` is the largest product of weights
+over all walks from `i` to `j` along existing connections, and it is attained: `distance_wei_floyd(W, 'log')` computes the
+most probable path -/
+theorem log_most_probable_path (W : Fin n → Fin n → ℝ) (hW : ∀ i j, 0 ≤ W i j ∧ W i j ≤ 1) (i j : Fin n) (d : ℝ)
+    (hd : (floydFun (logLen W)).D i j = ((d : ℝ) : WithTop ℝ)) :
+    (∀ p, DistK.walkEnd i p = j → stepsPos W i p → walkProd W i p ≤ Real.exp (-d)) ∧
+    (∃ p, DistK.walkEnd i p = j ∧ stepsPos W i p ∧ walkProd W i p = Real.exp (-d)) := by
+  have sp := (distance_wei_floyd_log_spec W hW).isDist
+  constructor
+  · intro p hp hpos
+    have h1 := sp.lower i p
+    rw [hp, hd, walkLen_logLen W p i hpos] at h1
+    have h2 : d ≤ -Real.log (walkProd W i p) := by exact_mod_cast h1
+    have hpp := walkProd_pos W p i hpos
+    calc walkProd W i p = Real.exp (Real.log (walkProd W i p)) := (Real.exp_log hpp).symm
+      _ ≤ Real.exp (-d) := Real.exp_le_exp.mpr (by linarith)
+  · obtain ⟨p, hp, hl⟩ := sp.attained i j (by rw [hd]; exact WithTop.coe_lt_top d)
+    have hfin : DistK.walkLen (logLen W) i p < ⊤ := by rw [hl, hd]; exact WithTop.coe_lt_top d
+    have hpos := stepsPos_of_finite W (fun a b => (hW a b).1) p i hfin
+    refine ⟨p, hp, hpos, ?_⟩
+    rw [walkLen_logLen W p i hpos, hd] at hl
+    have h2 : -Real.log (walkProd W i p) = d := by exact_mod_cast hl
+    rw [← h2, neg_neg, Real.exp_log (walkProd_pos W p i hpos)]
 
 /-! ## distance_wei (Dijkstra) -/
 
@@ -623,6 +678,58 @@ theorem charpath_radius_diameter_spec (D : AMat Ext n) (incDiag incInf : Bool) (
   obtain ⟨rd, hrd⟩ := Option.isSome_iff_exists.mp (radiusDiameter_isSome D incDiag incInf hn)
   exact ⟨rd.1, rd.2, hrd, radiusDiameter_spec D incDiag incInf rd.1 rd.2 hrd⟩
 
+/-- the cells `charpath` averages over under the given flags: all cells or the off-diagonal ones, infinite cells dropped
+when `include_infinite=False` -/
+def charVals (D : AMat Ext n) (incDiag incInf : Bool) : List Ext :=
+  ((if incDiag then cells n else offDiag n).map fun p => D.get p.1 p.2).filter fun x => incInf || x.isFin
+
+/-- **`charpath_flags_spec`** — `lambda` and `efficiency` of `charpath(D, include_diagonal, include_infinite)` for every
+matrix and every flag combination, with NumPy's conventions: no selected cell → both NaN (`none`); `lambda` is `∞` as soon
+as a selected cell is `∞`, else the plain mean; `efficiency` is `∞` as soon as a selected cell is 0 (`1/0`; this is what
+`include_diagonal=True` does to a distance matrix), else the mean of `1/x` with `1/∞ = 0`. (`charpath` is a total function;
+`ecc`, `radius`, `diameter` under the same flags: `charpath_ecc_masked_spec`, `charpath_radius_diameter_spec`.) -/
+theorem charpath_flags_spec (D : AMat Ext n) (incDiag incInf : Bool) :
+    (charVals D incDiag incInf = [] → charpath D incDiag incInf = (none, none)) ∧
+    (charVals D incDiag incInf ≠ [] →
+      (charpath D incDiag incInf).1 =
+        (if Ext.inf ∈ charVals D incDiag incInf then some .inf
+         else some (.fin (((charVals D incDiag incInf).map finVal).sum / ((charVals D incDiag incInf).length : ℚ)))) ∧
+      (charpath D incDiag incInf).2 =
+        (if Ext.fin 0 ∈ charVals D incDiag incInf then some .inf
+         else some (.fin (((charVals D incDiag incInf).map invQ).sum / ((charVals D incDiag incInf).length : ℚ))))) := by
+  have hcp : charpath D incDiag incInf = (meanExt (charVals D incDiag incInf), meanExt ((charVals D incDiag incInf).map Ext.inv)) := rfl
+  rw [hcp]
+  set vals := charVals D incDiag incInf with hv
+  constructor
+  · intro h0; rw [h0]; simp [meanExt]
+  · intro hne
+    have notinf : ∀ xs : List Ext, Ext.inf ∉ xs → ∀ x ∈ xs, x.isFin = true := by
+      intro xs h x hx
+      cases x with
+      | inf => exact absurd hx h
+      | fin q => rfl
+    constructor
+    · by_cases hi : Ext.inf ∈ vals
+      · rw [if_pos hi]; exact meanExt_inf vals hi
+      · rw [if_neg hi]; exact meanExt_fin vals hne (notinf vals hi)
+    · have hmem : Ext.inf ∈ vals.map Ext.inv ↔ Ext.fin 0 ∈ vals := by
+        simp only [List.mem_map]
+        constructor
+        · rintro ⟨x, hx, e⟩
+          cases x with
+          | inf => simp [Ext.inv] at e
+          | fin q =>
+            by_cases hq : q = 0
+            · rw [hq] at hx; exact hx
+            · simp [Ext.inv, hq] at e
+        · intro h0; exact ⟨Ext.fin 0, h0, by simp [Ext.inv]⟩
+      by_cases hz : Ext.fin 0 ∈ vals
+      · rw [if_pos hz]; exact meanExt_inf _ (hmem.mpr hz)
+      · rw [if_neg hz]
+        have hni : Ext.inf ∉ vals.map Ext.inv := fun h' => hz (hmem.mp h')
+        rw [meanExt_fin _ (by simpa using hne) (notinf _ hni), List.length_map, List.map_map]
+        rfl
+
 /-- **`efficiency_bin_spec`** (global): the returned value is the mean inverse hop distance over the ordered pairs of
 distinct nodes, for every input with at least two nodes -/
 theorem efficiency_bin_spec (A : AMat Rat n) (hn : 2 ≤ n) :
@@ -655,6 +762,58 @@ theorem rout_efficiency_spec (tr : Transform) (A : AMat Rat n) (hA : NonNeg A) (
     exact meanInvOff_spec _ hn (offDiag_ne_zero _ hd (lenMat_pos tr A hA))
   · intro i j
     simp [routEfficiency]
+
+/-- **`rout_efficiency_local_spec`**: `Eloc[u]` of `rout_efficiency(D, transform)` (None / 'inv'): with `V` the in/out
+neighbours of `u` and `S = D[V][:, V]`, the matrix the code inverts *is* the shortest-path matrix of the sub-graph `S`, and
+`Eloc[u] = Σ_{a ≠ b ∈ V} 1/d_ab / |V|` (`1/∞ = 0`); NaN (`none`) for a node without neighbours -/
+theorem rout_efficiency_local_spec (tr : Transform) (A : AMat Rat n) (hA : NonNeg A) (u : Fin n) :
+    IsDist (lenFun (lenMat tr (subMatV A (routNbrs A u)))) (lenFun (floyd (lenMat tr (subMatV A (routNbrs A u)))).D) ∧
+    ((routNbrs A u).length = 0 → routLocalNode tr A u = none) ∧
+    ((routNbrs A u).length ≠ 0 → routLocalNode tr A u =
+      some (.fin (((offDiag (routNbrs A u).length).map fun p =>
+        invQ ((floyd (lenMat tr (subMatV A (routNbrs A u)))).D.get p.1 p.2)).sum / ((routNbrs A u).length : ℚ)))) := by
+  have hsub : NonNeg (subMatV A (routNbrs A u)) := by
+    intro a b; simp only [subMatV, AMat.get_ofFn]; exact hA _ _
+  have hd := floyd_isDist tr _ hsub
+  refine ⟨hd, ?_, ?_⟩
+  · intro h0; simp [routLocalNode, routLocalOf, h0]
+  · intro hne
+    have hpos := offDiag_ne_zero _ hd (lenMat_pos tr _ hsub)
+    have hfin : ∀ x ∈ (offDiag (routNbrs A u).length).map
+        (fun p => ((floyd (lenMat tr (subMatV A (routNbrs A u)))).D.get p.1 p.2).inv), x.isFin = true := by
+      intro x hx
+      obtain ⟨p, hp, rfl⟩ := List.mem_map.mp hx
+      exact inv_isFin_of_ne_zero _ (hpos p hp)
+    simp only [routLocalNode, routLocalOf, if_neg hne]
+    rw [sumExt_fin _ hfin, List.map_map]
+    rfl
+
+/-! ### local efficiencies (model `BctVerif/Model/LocalEff.lean`, the two loops as coded) -/
+
+/-- **`efficiency_bin_local_spec`**: `efficiency_bin(G, local=True)[u]` is the coded arithmetic (`LocalEff.core`: numerator
+`Σ_{a,b} s_a s_b (1/d_ab + 1/d_ba) / 2`, denominator `(Σ s)² − Σ s²`) evaluated on a matrix `D` that *is* the hop-distance
+matrix of the sub-graph induced by the in/out-neighbours of `u` -/
+theorem efficiency_bin_local_spec (G : AMat Rat n) (u : Fin n) :
+    ∃ D, IsDist (hopLen (LocalEff.subMat (Cluster.adj G) (LocalEff.nbrs (Cluster.adj G) u))) (lenFun D) ∧
+      LocalEff.effBinNode G u =
+        LocalEff.core (LocalEff.links (Cluster.adj G) u (LocalEff.nbrs (Cluster.adj G) u))
+          (LocalEff.links (Cluster.adj G) u (LocalEff.nbrs (Cluster.adj G) u)) D := by
+  obtain ⟨D, hD⟩ := distBin_total (LocalEff.subMat (Cluster.adj G) (LocalEff.nbrs (Cluster.adj G) u))
+  refine ⟨D, distBin_isDist _ D hD, ?_⟩
+  simp only [LocalEff.effBinNode, LocalEff.effBinOn, hD]
+
+/-- **`efficiency_wei_local_spec`**: `efficiency_wei(W, local=True)[u]` (Wang et al. variant, `R` = cube roots of the weights):
+the coded arithmetic evaluated on a matrix `D` that *is* the shortest-path matrix of the neighbourhood sub-graph for the
+connection lengths `1/R` -/
+theorem efficiency_wei_local_spec (W R : AMat Rat n) (hR : NonNeg R) (u : Fin n) :
+    ∃ D, IsDist (lenFun (lenMat .inv (LocalEff.subMat R (LocalEff.nbrs W u)))) (lenFun D) ∧
+      LocalEff.effWeiNode W R u =
+        LocalEff.core (LocalEff.links R u (LocalEff.nbrs W u)) (LocalEff.links (Cluster.adj W) u (LocalEff.nbrs W u)) D := by
+  have hsub : NonNeg (LocalEff.subMat R (LocalEff.nbrs W u)) := by
+    intro a b; simp only [LocalEff.subMat, AMat.get_ofFn]; exact hR _ _
+  obtain ⟨D, B, hD⟩ := dijkstra_total (lenMat .inv (LocalEff.subMat R (LocalEff.nbrs W u)))
+  refine ⟨D, dijkstra_isDist .inv _ hsub D B hD, ?_⟩
+  simp only [LocalEff.effWeiNode, hD]
 
 /-- `charpath` applied to the output of `distance_wei_floyd` (the other four routines likewise, through their `IsDist`
 theorems): mean inverse and mean of the true shortest-path lengths -/
@@ -697,7 +856,23 @@ example : (distBin ex3).map (fun D => (eccOf D false true 0, eccOf D false false
 example : (breadth cyc3 0).map (fun r => (r.branch[(0 : Fin 3)], r.branch[(1 : Fin 3)], r.branch[(2 : Fin 3)])) = some (-1, 0, 1) := by
   decide +kernel
 example : (distBin ex3).map (fun D => (charpath D false true).1) = some (some .inf) := by decide +kernel
+example : (List.finRange 3).map (routLocalNode .none cyc3) = [some (.fin (1 / 2)), some (.fin (1 / 2)), some (.fin (1 / 2))] := by
+  decide +kernel
 example : NonNeg cyc3 ∧ efficiencyWei cyc3 = some (some (.fin (3 / 4))) ∧ (routEfficiency .inv cyc3).1 = some (.fin (3 / 4)) := by
   decide +kernel
+
+/-! ### non-vacuity from recorded runs of the real code (values printed by bct on these inputs) -/
+
+/-- `bct.distance_wei([[0,1,0,2],[0,0,1,0],[1,0,0,0],[0,0,0,0]])[0]` -/
+def recD : AMat Ext 4 := AMat.ofFn fun i j =>
+  (([[.fin 0, .fin 1, .fin 2, .fin 2], [.fin 2, .fin 0, .fin 1, .fin 4], [.fin 1, .fin 2, .fin 0, .fin 3],
+     [.inf, .inf, .inf, .fin 0]] : List (List Ext)).getD i.val []).getD j.val .inf
+/-- recorded: `charpath(D, False, True) = (inf, 0.46527…, [2,4,3,inf], 2, inf)`, `(False, False) = (2.0, 0.62037…, [2,4,3,1e20], 2, 1e20)`,
+`(True, False) = (1.3846…, inf, [2,4,3,0], 0, 4)` -/
+example : charpath recD false true = (some .inf, some (.fin (67 / 144))) ∧
+    charpath recD false false = (some (.fin 2), some (.fin (67 / 108))) ∧
+    charpath recD true false = (some (.fin (18 / 13)), some .inf) ∧
+    (List.finRange 4).map (eccOf recD false false) = [.fin 2, .fin 4, .fin 3, maskedFill] ∧
+    radiusDiameter recD true false = some (.fin 0, .fin 4) := by decide +kernel
 
 end Bct.C03
